@@ -1264,7 +1264,10 @@ class Scene(Geometry3D):
                 if "matrix" in edge_data[uv]:
                     props = edge_data[uv]
                     T = edge_data[uv]["matrix"].copy()
-                    T[:3, 3] *= scale
+                    # the translation of an edge is expressed in the frame
+                    # of its parent so scale it along the axes of the scene
+                    R = self.graph.get(uv[0])[0][:3, :3]
+                    T[:3, 3] = np.dot(np.linalg.inv(R), np.dot(R, T[:3, 3]) * scale)
                     props["matrix"] = T
                     result.graph.update(frame_from=uv[0], frame_to=uv[1], **props)
             # Clear cache
